@@ -85,8 +85,12 @@ func runCLI(bin string, args []string, chunks []string, pause time.Duration, row
 	return res
 }
 
-func runCLIOnce(bin string, args []string, chunks []string, pause time.Duration, rows, cols int) cliOut {
-	var res cliOut
+// sinkFile as the cols argument of runCLI: stdout is a regular file (no pty, no pipe).
+const sinkFile = -1
+
+var scratchDir string
+
+func runCLIOnce(bin string, args []string, chunks []string, pause time.Duration, rows, cols int) (res cliOut) {
 	ctx, cancel := context.WithTimeout(context.Background(), 90*time.Second)
 	defer cancel()
 	cmd := exec.CommandContext(ctx, bin, args...)
@@ -133,6 +137,30 @@ func runCLIOnce(bin string, args []string, chunks []string, pause time.Duration,
 				}
 			}
 		}()
+	} else if cols == sinkFile {
+		// stdout redirected to a regular file: "piped output" in rare's sense (not a character device)
+		f, err := os.CreateTemp(scratchDir, "sink-*.out")
+		if err != nil {
+			res.err = err
+			return res
+		}
+		cmd.Stdout = f
+		if err := cmd.Start(); err != nil {
+			f.Close()
+			os.Remove(f.Name())
+			res.err = err
+			return res
+		}
+		go func() {
+			defer close(done)
+		}()
+		defer func() {
+			f.Close()
+			if b, err := os.ReadFile(f.Name()); err == nil {
+				res.out = b
+			}
+			os.Remove(f.Name())
+		}()
 	} else {
 		pr, pw, err := os.Pipe()
 		if err != nil {
@@ -170,7 +198,9 @@ func runCLIOnce(bin string, args []string, chunks []string, pause time.Duration,
 	if master >= 0 {
 		syscall.Close(master)
 	}
-	res.out = outBuf.Bytes()
+	if cols != sinkFile {
+		res.out = outBuf.Bytes()
+	}
 	res.stderr = errBuf.String()
 	if werr != nil {
 		if ee, ok := werr.(*exec.ExitError); ok {
@@ -180,6 +210,13 @@ func runCLIOnce(bin string, args []string, chunks []string, pause time.Duration,
 		}
 	}
 	return res
+}
+
+func head(s string, n int) string {
+	if len(s) > n {
+		return s[:n]
+	}
+	return s
 }
 
 func snapshotLines(out []byte) []string {
@@ -321,6 +358,38 @@ func runPty(c *run.Ctx, cs *Case) bool {
 		return false
 	}
 	judge("live", live, true)
+	// E: no --snapshot, stdout redirected to a regular file: rare must choose the buffered writer by
+	// itself ("will enable automatically when piping output") — the final lines top to bottom, no
+	// cursor movement, erase or carriage-return sequences.
+	if ok {
+		e := runCLI(c.RareBin, append([]string{"--color"}, p.Args...), all, 0, 0, sinkFile)
+		if incon("run with stdout redirected to a file", e) {
+			return false
+		}
+		c.Count("pty_file_sink_runs", 1)
+		out := string(e.out)
+		for _, bad := range []string{"\r", "\x1b[?25", "\x1b[0K", "\x1b[1A", "\x1b[2A", "\x1b[3A"} {
+			if strings.Contains(out, bad) {
+				ok = false
+				c.Violation(fp("file-sink-control"), fmt.Sprintf("rare %s with stdout redirected to a regular file wrote the terminal control sequence %s: the buffered writer must be used for output that is not a terminal; output starts %s", strings.Join(p.Args, " "), run.Q(bad), run.Q(head(out, 200))), cs)
+				break
+			}
+		}
+		if ok && content {
+			el := snapshotLines(e.out)
+			if len(el) != len(ref) {
+				ok = false
+				c.Violation(fp("file-sink-lines"), fmt.Sprintf("rare %s with stdout redirected to a regular file wrote %d lines, --snapshot writes %d", strings.Join(p.Args, " "), len(el), len(ref)), cs)
+			}
+			for i := 0; ok && i < len(ref)-1; i++ {
+				v, vok := visible(el[i])
+				if !vok || strings.TrimRight(string(v), " ") != strings.TrimRight(ref[i], " ") {
+					ok = false
+					c.Violation(fp("file-sink-row"), fmt.Sprintf("rare %s with stdout redirected to a regular file: line %d is %s, --snapshot prints %s", strings.Join(p.Args, " "), i, run.Q(el[i]), run.Q(ref[i])), cs)
+				}
+			}
+		}
+	}
 	// D: buffered writer (--snapshot) on the pty: trimmed like the live one
 	if ok {
 		d := runCLI(c.RareBin, snapArgs, all, 0, p.Rows, p.Cols)
